@@ -280,7 +280,7 @@ def run(ctx):
         # truncations and corruptions
         def opts_fn(i, r):
             return jsgen.Opts(clean=False, unicode_idents=(i % 3 == 0), string_continuations=(i % 2 == 0))
-        progs = work.Programs(ctx, ctx.pick(60, 1500), opts_fn=opts_fn, valid_only=False)
+        progs = work.Programs(ctx, ctx.per_shard(60, 1500), opts_fn=opts_fn, valid_only=False)
         for text, meta in progs:
             if len(text) > 400 and meta['origin'] == 'corpus':
                 cuts = sorted(set(rng.randrange(len(text)) for _ in range(40)))
@@ -297,7 +297,7 @@ def run(ctx):
         progs.report()
 
         # random strings over the full Unicode range
-        for i in range(ctx.pick(300, 6000)):
+        for i in range(ctx.per_shard(300, 6000)):
             n = rng.randint(1, 12)
             chars = []
             for _ in range(n):
